@@ -303,7 +303,7 @@ func c01BuildCross() []string {
 
 func c01RunCross(c *wk.Case) {
 	if c01CrossScripts == nil {
-		c01CrossScripts = append(c01BuildCross(), c01BuildCrossR5()...)
+		c01CrossScripts = append(append(c01BuildCross(), c01BuildCrossR5()...), c01BuildCrossR6()...)
 	}
 	if c.Index == 0 {
 		c.Count("cross-scripts-total", len(c01CrossScripts))
@@ -318,14 +318,21 @@ func c01RunCross(c *wk.Case) {
 type c01StormIn struct {
 	Src   string `json:"src"`
 	Procs int    `json:"procs"`
+	// Canary (optional, see c01_r6.go) is run single-threaded in a FRESH environment
+	// of the child after the storm returned; it evaluates to true when the storm's
+	// premise held (what each goroutine made / imported was its own)
+	Canary string `json:"canary,omitempty"`
 }
 
 type c01StormOut struct {
-	Panicked bool   `json:"panicked"`
-	Sig      string `json:"sig"`
-	Detail   string `json:"detail"`
-	Err      string `json:"err"`
-	Val      string `json:"val"`
+	Panicked  bool   `json:"panicked"`
+	Sig       string `json:"sig"`
+	Detail    string `json:"detail"`
+	Err       string `json:"err"`
+	Val       string `json:"val"`
+	CanaryRan bool   `json:"canary_ran,omitempty"`
+	CanaryOK  bool   `json:"canary_ok,omitempty"`
+	CanaryGot string `json:"canary_got,omitempty"`
 }
 
 // c01StormConstruct writes one statement that evaluates a construct of the given
@@ -443,11 +450,19 @@ var (
 func c01RunStorm(c *wk.Case) {
 	src, _ := c01Storm(c.Rng)
 	procs := []int{4, 8, 16}[c.Rng.Intn(3)]
+	c01RunStormIn(c, c01StormIn{Src: src, Procs: procs})
+}
+
+// c01RunStormIn runs one storm script in a fresh child process and judges the
+// child's fate; returned is true (and the child's report) when the child came
+// back alive with a report.
+func c01RunStormIn(c *wk.Case, sin c01StormIn) (out c01StormOut, returned bool) {
+	src := sin.Src
 	bin := os.Getenv("VERIF_WORKER_BIN")
 	if bin == "" {
 		bin, _ = os.Executable()
 	}
-	in, _ := json.Marshal(c01StormIn{Src: src, Procs: procs})
+	in, _ := json.Marshal(sin)
 	c.Begin(src)
 	cmd := exec.Command(bin, "-child", "c01storm")
 	cmd.Stdin = bytes.NewReader(in)
@@ -455,7 +470,7 @@ func c01RunStorm(c *wk.Case) {
 	cmd.Stdout, cmd.Stderr = &stdout, &stderr
 	if err := cmd.Start(); err != nil {
 		c.Inconclusive("storm-child-not-started", err.Error(), nil)
-		return
+		return out, false
 	}
 	done := make(chan error, 1)
 	go func() { done <- cmd.Wait() }()
@@ -467,12 +482,11 @@ func c01RunStorm(c *wk.Case) {
 		cmd.Process.Kill()
 		<-done
 		c.Inconclusive("storm-child-watchdog", "", src)
-		return
+		return out, false
 	}
 	c.Eval(src, true)
 	c.Events(1)
 	c.Count("storm-child-processes", 1)
-	var out c01StormOut
 	if werr == nil && json.Unmarshal(stdout.Bytes(), &out) == nil {
 		switch {
 		case out.Panicked:
@@ -483,17 +497,17 @@ func c01RunStorm(c *wk.Case) {
 		default:
 			c.Tag("storm:value")
 		}
-		return
+		return out, true
 	}
 	// the child died
 	es := stderr.String()
 	switch {
 	case strings.Contains(es, "stack overflow") || strings.Contains(es, "goroutine stack exceeds"):
 		c.Excluded("stack-exhaustion")
-		return
+		return out, false
 	case strings.Contains(es, "out of memory") || strings.Contains(es, "cannot allocate memory") || strings.Contains(es, "runtime: cannot map pages"):
 		c.Excluded("memory-exhaustion")
-		return
+		return out, false
 	}
 	msg := ""
 	for _, ln := range strings.Split(es, "\n") {
@@ -505,7 +519,7 @@ func c01RunStorm(c *wk.Case) {
 	if msg == "" {
 		// not a Go fault report (killed from outside, could not start ...): nothing learnt
 		c.Inconclusive("storm-child-died-without-report", fmt.Sprint(werr)+" "+firstLinesOf(es, 3), src)
-		return
+		return out, false
 	}
 	site := ""
 	if m := c01ReStormFrame.FindStringSubmatch(es); m != nil {
@@ -525,6 +539,7 @@ func c01RunStorm(c *wk.Case) {
 	}
 	c.Tag("storm:child-died")
 	c.Violation("crash:"+site+":"+msg, "the process hosting the interpreter died: "+firstLinesOf(es, 40), src)
+	return out, false
 }
 
 // c01StormChild is the body of the child process.
@@ -542,6 +557,7 @@ func c01StormChild(args []string) {
 	for k := range env.PackageTypes {
 		delete(env.PackageTypes, k)
 	}
+	c01RegisterPkg() // the host's own package (c01_r6.go): values and Go functions over them
 	if in.Procs > 0 {
 		runtime.GOMAXPROCS(in.Procs)
 	}
@@ -556,6 +572,15 @@ func c01StormChild(args []string) {
 	out := c01StormOut{Panicked: o.Panicked, Sig: o.PanicSig, Detail: o.PanicVal + "\n" + firstLinesOf(o.Stack, 14), Err: ank.ErrText(o.Err)}
 	if !o.Panicked && o.Err == nil {
 		out.Val = ank.Render(o.Val)
+	}
+	if in.Canary != "" && !o.Panicked {
+		co := ank.Exec(c01NewEnv(), in.Canary)
+		out.CanaryRan = true
+		out.CanaryOK = !co.Panicked && co.Err == nil && co.Val == true
+		out.CanaryGot = ank.Render(co.Val) + " " + ank.ErrText(co.Err) + " " + co.PanicVal
+		if co.Panicked {
+			out.Panicked, out.Sig, out.Detail = true, co.PanicSig, co.PanicVal+"\n"+firstLinesOf(co.Stack, 14)
+		}
 	}
 	b, _ := json.Marshal(out)
 	os.Stdout.Write(b)
